@@ -783,3 +783,55 @@ example :
     (.located ⟨2, true, .none, .cycleOutside⟩) (by
       simp [renderRoot, renderList, renderNode, wrapFailAt, M.mapFail, M.bind, M.pure, writeM, M.getVar, M.fail, cyclesOf,
         Env.get, Prog.bind, Prog.mapFail, Prog.runPure, bind, pure, demoCtx, errorfAt, wrapError])
+
+/-- `assign_scope_global` for an arbitrary expression: if what precedes the assignment in the
+    block establishes a condition `P` on the variables under which `e` evaluates to `v`, then `x`
+    holds `v` after the block (whenever the body ends normally and what follows does not write `x`). -/
+theorem assign_scope_expr (c : RCtx) (x : Bytes) (v : GoVal) (line : Nat) (e : Expr) (pre post : List Node) (s : RS)
+    (P : Env → Prop) (hx : x ∉ writesList post)
+    (hpre : AllRet (fun r : Status × RS => r.1 = .done → P r.2.env) (renderList c pre s))
+    (he : ∀ env, P env → evaluate c.P env e = .ok v) :
+    AllRet (EnvQ (fun k env => k = .done → env.get x = v))
+      (renderBlockBody c (pre ++ .assign line x e :: post) s) := by
+  refine block_end_scope c _ s _ (seq_scope_append c pre _ s _ ?_)
+  refine hpre.mono (fun r hr => ?_)
+  obtain ⟨st, s1⟩ := r
+  cases st with
+  | done =>
+    simp only
+    rw [assign_seq c line x e post s1 v (he _ (hr rfl))]
+    refine (keeps_renderList c x post hx _).mono (fun r hr _ => ?_)
+    rw [hr]
+    exact Env.get_set_same _ _ _
+  | brk e' => intro h; cases h
+  | cont e' => intro h; cases h
+
+/-- Non-vacuity: `{% assign y = 1 %}{% assign x = y %}{% if y %}…{% endif %}` — `x` holds what `y` held -/
+example (c : RCtx) (s : RS) (body : List Node) (hb : [120] ∉ writesList body) :
+    AllRet (EnvQ (fun k env => k = .done → env.get [120] = .int .int 1))
+      (renderBlockBody c ([.assign 1 [121] (.lit (.int .int 1))] ++ .assign 2 [120] (.var [121]) ::
+        [.ifB 3 [(.expr 3 (.var [121]), body)]]) s) :=
+  assign_scope_expr c [120] (.int .int 1) 2 (.var [121]) _ _ s (fun env => env.get [121] = .int .int 1)
+    (by simpa [writesList, writesNode, writesBranches] using hb)
+    (by
+      rw [assign_seq c 1 [121] (.lit (.int .int 1)) [] s (.int .int 1) rfl, renderList]
+      exact .ret _ (fun _ => Env.get_set_same _ _ _))
+    (fun env h => by simp [evaluate, eval, h, GoVal.toLiquid, GoVal.unwrap])
+
+/-- Non-vacuity of `only_written_change`: a loop over `i` whose body assigns `x` and runs a `cycle` tag
+    writes `x` only — its own variable `i` and `forloop` come back restored -/
+example (e e2 : Expr) :
+    writesList [.loop 1 false [105] e {} [.assign 2 [120] e2, .cycle 3 [] [97] []] []] = [[120]] := by
+  simp [writesList, writesNode, writesClauses, nmForloop]
+
+example (c : RCtx) (e e2 : Expr) (s : RS) :
+    AllRet (fun r : Status × RS => r.2.env.get [105] = s.env.get [105])
+      (renderBlockBody c [.loop 1 false [105] e {} [.assign 2 [120] e2, .cycle 3 [] [97] []] []] s) :=
+  only_written_change c [105] _ (by simp [writesList, writesNode, writesClauses, nmForloop]) s
+
+/-- Non-vacuity of `assign_scope_global`: what follows the assignment may be any blocks not writing `x` -/
+example (c : RCtx) (s : RS) (pre : List Node) (e : Expr) :
+    AllRet (EnvQ (fun k env => k = .done → env.get [120] = .str [118]))
+      (renderBlockBody c (pre ++ .assign 1 [120] (.lit (.str [118])) ::
+        [.loop 2 false [105] e {} [.assign 3 [121] (.var [120])] [], .text 4 [97]]) s) :=
+  assign_scope_global c [120] (.str [118]) 1 pre _ s (by simp [writesList, writesNode, writesClauses, nmForloop])
